@@ -1,0 +1,69 @@
+//! Verification hooks (compiled only with `--cfg grass_verif`).
+//!
+//! A thread-local event buffer that records, at the scope operations of the
+//! evaluator, what was asked and what was answered. Off unless `start()` is
+//! called; nothing in the compiler reads it.
+
+use std::cell::RefCell;
+
+thread_local! {
+    static BUF: RefCell<Option<Vec<String>>> = const { RefCell::new(None) };
+}
+
+/// Start recording on this thread (clears earlier events).
+pub fn start() {
+    BUF.with(|b| *b.borrow_mut() = Some(Vec::new()));
+}
+
+/// Stop recording and return the recorded events (one JSON object per entry).
+pub fn take() -> Vec<String> {
+    BUF.with(|b| b.borrow_mut().take().unwrap_or_default())
+}
+
+thread_local! {
+    static NEXT: std::cell::Cell<usize> = const { std::cell::Cell::new(1) };
+}
+
+/// Allocate an id for a new scope stack and record where it was copied from
+/// (`from == 0`: a fresh stack).
+pub(crate) fn new_stack(from: usize, len: usize) -> usize {
+    let id = NEXT.with(|n| {
+        let v = n.get();
+        n.set(v + 1);
+        v
+    });
+    if on() {
+        emit(format!(
+            "{{\"e\":\"stack\",\"s\":{},\"from\":{},\"len\":{}}}",
+            id, from, len
+        ));
+    }
+    id
+}
+
+pub(crate) fn on() -> bool {
+    BUF.with(|b| b.borrow().is_some())
+}
+
+pub(crate) fn emit(s: String) {
+    BUF.with(|b| {
+        if let Some(v) = b.borrow_mut().as_mut() {
+            if v.len() < 2_000_000 {
+                v.push(s);
+            }
+        }
+    });
+}
+
+pub(crate) fn esc(s: &str) -> String {
+    let mut o = String::with_capacity(s.len() + 2);
+    for c in s.chars() {
+        match c {
+            '"' => o.push_str("\\\""),
+            '\\' => o.push_str("\\\\"),
+            c if (c as u32) < 0x20 => o.push_str(&format!("\\u{:04x}", c as u32)),
+            c => o.push(c),
+        }
+    }
+    o
+}
